@@ -25,7 +25,10 @@ def lemma_sum_drop(m, idx):
     lemma_sum_drop(m[1:], idx - 1)
     assert m[:idx] == (m[0],) + m[1:][: idx - 1]
     assert m[idx + 1:] == m[1:][idx:]
-    assert m[:idx] + m[idx + 1:] == (m[0],) + (m[1:][: idx - 1] + m[1:][idx:])
+    rest = m[1:][: idx - 1] + m[1:][idx:]
+    assert m[:idx] + m[idx + 1:] == (m[0],) + rest
+    assert sum((m[0],) + rest) == m[0] + sum(rest)
+    assert sum(m) == m[0] + sum(m[1:])
 
 
 def lemma_quotient_link(mins, s, r, idx, pshift):
